@@ -96,9 +96,10 @@ enum Finalizer {
 /// that another resultset can be sent. To indicate that no more resultset will be sent, call
 /// [`no_more_results`](struct.QueryResultWriter.html#method.no_more_results). All methods on
 /// `QueryResultWriter` (except `no_more_results`) automatically start a new resultset. The
-/// `QueryResultWriter` *may* be dropped without calling `no_more_results`, but in this case the
-/// program may panic if an I/O error occurs when sending the end-of-records marker to the client.
-/// To handle such errors, call `no_more_results` explicitly.
+/// `QueryResultWriter` *may* be dropped without calling `no_more_results`; an I/O error that occurs
+/// when sending the end-of-records marker to the client is then reported by the connection
+/// (`run_on` returns it) rather than by the shim. To handle such errors yourself, call
+/// `no_more_results` explicitly.
 #[must_use]
 pub struct QueryResultWriter<'a, W: Read + Write> {
     // XXX: specialization instead?
@@ -178,7 +179,10 @@ impl<'a, W: Read + Write> QueryResultWriter<'a, W> {
 
 impl<'a, W: Read + Write> Drop for QueryResultWriter<'a, W> {
     fn drop(&mut self) {
-        self.finalize(false).unwrap();
+        if let Err(e) = self.finalize(false) {
+            // cannot be returned from here: the connection reports it when the command ends
+            self.writer.defer_error(e);
+        }
     }
 }
 
@@ -191,9 +195,10 @@ impl<'a, W: Read + Write> Drop for QueryResultWriter<'a, W> {
 ///
 /// This type *may* be dropped without calling
 /// [`write_row`](struct.RowWriter.html#method.write_row) or
-/// [`finish`](struct.RowWriter.html#method.finish). However, in this case, the program may panic
-/// if an I/O error occurs when sending the end-of-records marker to the client. To avoid this,
-/// call [`finish`](struct.RowWriter.html#method.finish) explicitly.
+/// [`finish`](struct.RowWriter.html#method.finish). However, in this case, an I/O error that
+/// occurs when sending the end-of-records marker to the client is reported by the connection
+/// (`run_on` returns it) rather than by the shim. To handle such errors yourself, call
+/// [`finish`](struct.RowWriter.html#method.finish) explicitly.
 #[must_use]
 pub struct RowWriter<'a, W: Read + Write> {
     result: Option<QueryResultWriter<'a, W>>,
@@ -244,7 +249,7 @@ where
     /// If you do not call [`end_row`](struct.RowWriter.html#method.end_row) after the last row,
     /// any errors that occur when writing out the last row will be returned by
     /// [`finish`](struct.RowWriter.html#method.finish). If you do not call `finish` either, any
-    /// errors will cause a panic when the `RowWriter` is dropped.
+    /// errors are reported by the connection once the `RowWriter` is dropped.
     ///
     /// Note that the row *must* conform to the column specification provided to
     /// [`QueryResultWriter::start`](struct.QueryResultWriter.html#method.start). If it does not,
@@ -398,6 +403,11 @@ impl<'a, W: Read + Write + 'a> RowWriter<'a, W> {
 
 impl<'a, W: Read + Write + 'a> Drop for RowWriter<'a, W> {
     fn drop(&mut self) {
-        self.finish_inner(true).unwrap();
+        if let Err(e) = self.finish_inner(true) {
+            // cannot be returned from here: the connection reports it when the command ends
+            if let Some(result) = self.result.as_mut() {
+                result.writer.defer_error(e);
+            }
+        }
     }
 }
